@@ -111,9 +111,20 @@ Proof.
   - intros H; cbn in H; congruence.
 Qed.
 
-Ltac jdes := repeat match goal with H : Jcore _ _ |- _ => destruct H end.
-Ltac jfin := try solve [intuition (subst; auto; try congruence; try discriminate; try lia)].
-Ltac jgo := jdes; prj; constructor; prj; unfold pristine in *; prj; rewrite ?cnt_cons, ?cnt_nil, ?cnt_app in *; cbn [radv b2n] in *; jfin.
+Ltac jdes := match goal with H : Jcore _ _ |- _ => destruct H as [h1 h2 h3 h4 h5 h6 h7 h8 h9 h10 h12 h13 h11] end.
+Ltac fin := intuition (subst; auto; try congruence; try discriminate; try lia).
+Tactic Notation "clr" ident(x) ident(a) ident(b) ident(c) :=
+  try (tryif first [constr_eq x a | constr_eq x b | constr_eq x c] then idtac else clear x).
+Tactic Notation "keep" ident(a) ident(b) ident(c) :=
+  clr h1 a b c; clr h2 a b c; clr h3 a b c; clr h4 a b c; clr h5 a b c; clr h6 a b c; clr h7 a b c;
+  clr h8 a b c; clr h9 a b c; clr h10 a b c; clr h11 a b c; clr h12 a b c; clr h13 a b c.
+Tactic Notation "jq" ident(a) ident(b) ident(c) :=
+  first [ assumption | solve [keep a a a; fin] | solve [keep a b b; fin] | solve [keep a b c; fin] | idtac ].
+Ltac jgo := jdes; prj; constructor; prj; unfold pristine in *; prj; rewrite ?cnt_cons, ?cnt_nil, ?cnt_app in *; cbn [radv b2n] in *;
+  [ jq h1 h3 h2 | jq h2 h3 h7 | jq h3 h2 h1 | jq h4 h5 h6 | jq h5 h8 h6 | jq h6 h5 h4 | jq h7 h2 h8 | jq h8 h13 h7 | jq h9 h10 h11 | jq h10 h9 h11
+   | jq h12 h2 h3 | jq h13 h8 h11 | jq h11 h13 h8 ].
+(* last resort: every clause at once (slow) *)
+Ltac jfin := try solve [fin].
 
 Lemma gen_end_J : forall r s, r <> None -> Jcore r s -> Jcore None (fst (gen_end s)).
 Proof.
@@ -208,459 +219,4 @@ Proof.
     - exists s, []. auto. }
   destruct X as (s1 & o1 & -> & J1 & S1 & C1). clear H Hs H2.
   ds s1. prj. subst. destruct grp; destruct sd as [idx|]; unfold finish_stop; prj; (split; [|reflexivity]); jgo.
-Qed.
-
-Lemma coord_stop_J : forall r st s, Jcore r s -> consumers s = [] ->
-  let s' := fst (coord_stop st s) in
-  Jcore r s' /\ (start_d s <> None \/ stopping s = true -> stopping s' = true) /\
-  (start_d s = None -> stopping s = false -> same_core (if is_group s then set_stop_requested false s else s) s').
-Proof.
-  intros r st s H Hc. ds s. prj. subst cs. unfold coord_stop. prj.
-  destruct sd as [idx|].
-  2:{ unfold finish_stop. prj. split; [|split; [intros [X|X]; [congruence|]|intros _ _]].
-      - destruct grp; jgo.
-      - destruct grp; exact X.
-      - destruct grp; frame. }
-  destruct stp.
-  { unfold finish_stop. prj. split; [|split; [intros _|intros; congruence]]; destruct grp; prj; auto; jgo. }
-  assert (C2 : cnt has_s2 sts = 0%nat). { destruct H. prj. intuition congruence. }
-  destruct dc0 as [|id|]; unfold finish_stop, hb_stop, remove_timer; prj.
-  3:{ split; [|split; [intros _|intros; congruence]]; destruct grp; prj; auto; jgo. }
-  all: destruct hbq as [rid|]; prj; destruct hbr; prj; destruct (ck && negb (mem =? 0)); prj.
-  all: try (split; [|split; [intros _|intros; congruence]]; [jgo|reflexivity]).
-  all: match goal with |- context [stop_tail st ?s0] =>
-         let X := fresh in assert (X : Jcore r s0) by jgo;
-         let Y := fresh in pose proof (stop_tail_J r st s0 eq_refl C2 X) as Y;
-         destruct (stop_tail st s0) as [s3 o4]; prj; destruct Y; split; [|split; [intros _|intros; congruence]]; assumption end.
-Qed.
-
-Definition stab_eq (s s' : state) : Prop :=
-  stopping s' = stopping s /\ rejoin_needed s' = rejoin_needed s /\ hb_running s' = hb_running s.
-
-Lemma do_stop_J : forall r idx err s, Jcore r s ->
-  let s' := fst (do_stop idx err s) in
-  Jcore r s' /\
-  (stopping s' = true \/
-   (start_d s = None /\ stopping s = false /\ same_core (set_stop_requested false s) s') \/
-   (is_group s = true /\ consumers s <> [] /\ stop_requested s' = true /\ stab_eq s s')).
-Proof.
-  intros r idx err s H. unfold do_stop.
-  destruct (is_group s) eqn:G.
-  - destruct (consumers (set_stop_requested true s)) as [|c cs'] eqn:C.
-    + assert (J0 : Jcore r (set_stop_requested true s)). { ds s. prj. subst. jgo. }
-      pose proof (coord_stop_J r (mkStop idx err (S2 0)) _ J0 C) as (A & B & D). split; [exact A|].
-      destruct (start_d s) as [i|] eqn:Sd.
-      * left. apply B. left. ds s. prj. congruence.
-      * destruct (stopping s) eqn:Stp.
-        -- left. apply B. right. ds s. exact Stp.
-        -- right. left. repeat split; auto.
-           assert (D' := D (ltac:(ds s; exact Sd)) (ltac:(ds s; exact Stp))).
-           ds s. prj. subst. cbn in D'. exact D'.
-    + unfold begin_shutdown. prj. split.
-      * ds s. prj. subst. jgo.
-      * right. right. ds s. prj. subst. repeat split; auto. discriminate.
-  - pose proof (coord_stop_J r (mkStop idx err (S2 0)) _ H (j1 _ _ H G)) as (A & B & D). split; [exact A|].
-    destruct (start_d s) as [i|] eqn:Sd.
-    * left. apply B. left. congruence.
-    * destruct (stopping s) eqn:Stp.
-      -- left. apply B. right. exact Stp.
-      -- right. left. repeat split; auto. specialize (D eq_refl eq_refl). rewrite G in D.
-         assert (Sr : stop_requested s = false).
-         { destruct (j5 _ _ H Sd) as [X|[X _]]; [congruence|]. unfold pristine in X. intuition. }
-         ds s. prj. subst. exact D.
-Qed.
-
-(* ---------- rejoin_after_error ---------- *)
-Lemma ogl_fields : forall s, let s' := fst (on_group_leave s) in
-  start_d s' = start_d s /\ stopping s' = stopping s /\ stop_requested s' = stop_requested s /\ rejoin_needed s' = rejoin_needed s /\
-  hb_running s' = hb_running s /\ timers s' = timers s /\ gens s' = gens s /\ escaped s' = escaped s /\ dc s' = dc s /\ is_group s' = is_group s.
-Proof. intros s. unfold on_group_leave. destruct (is_group s); ds s; cbn; repeat split; reflexivity. Qed.
-
-Lemma fatal_J : forall r k s, Jcore r s -> start_d s <> None \/ stopping s = true ->
-  Jcore r (fst (fatal k s)) /\ stopping (fst (fatal k s)) = true.
-Proof.
-  intros r k s H Hn. unfold fatal, seq.
-  destruct (on_group_leave s) as [s1 o1] eqn:E.
-  pose proof (ogl_J r s H) as [J1 C1]. pose proof (ogl_fields s) as (F1 & F2 & _). rewrite E in *. cbn [fst] in *.
-  pose proof (do_stop_J r (-1) (Some k) s1 J1) as [J2 Q].
-  destruct (do_stop (-1) (Some k) s1) as [s2 o2]. cbn [fst] in *. split; auto.
-  destruct Q as [Q|[(Q1 & Q2 & _)|(_ & Q & _)]]; auto; [|congruence].
-  rewrite F1 in Q1. rewrite F2 in Q2. destruct Hn; congruence.
-Qed.
-
-Lemma schedule_rejoin_J : forall r d s, stopping s = false -> Jcore r s ->
-  let s' := fst (schedule_rejoin d s) in
-  Jcore r s' /\ rejoin_needed s' = true /\ timers s' <> [] /\ stopping s' = false.
-Proof.
-  intros r d s Hs H. unfold schedule_rejoin. ds s. prj. subst. destruct dc0 as [|id|]; unf; prj.
-  - repeat split; try discriminate. jgo.
-  - repeat split; [jgo|]. destruct H. prj. intros ->. apply (j21 id eq_refl).
-  - destruct H. prj. exfalso. apply j22; auto.
-Qed.
-
-Lemma resched_J : forall r d s, Jcore r s ->
-  let s' := fst (resched d s) in
-  Jcore r s' /\ (stopping s' = true \/ (rejoin_needed s' = true /\ timers s' <> [] /\ stopping s' = false)).
-Proof.
-  intros r d s H. unfold resched. destruct (stopping s) eqn:Hs.
-  - cbn [fst]. auto.
-  - pose proof (schedule_rejoin_J r d s Hs H) as (A & B & C & D). split; auto.
-Qed.
-
-Lemma set_member_J : forall r s, Jcore r s -> consumers s = [] -> Jcore r (set_member 0 s).
-Proof. intros r s H C. ds s. prj. subst. jgo. Qed.
-
-Lemma rejoin_after_error_J : forall r k s, Jcore r s -> start_d s <> None \/ stopping s = true ->
-  let s' := fst (rejoin_after_error k s) in
-  Jcore r s' /\ (stopping s' = true \/ (rejoin_needed s' = true /\ timers s' <> [] /\ stopping s' = false)).
-Proof.
-  intros r k s H Hn.
-  assert (OG : forall d, let s' := fst ((on_group_leave ;; resched d) s) in
-           Jcore r s' /\ (stopping s' = true \/ (rejoin_needed s' = true /\ timers s' <> [] /\ stopping s' = false))).
-  { intros d. unfold seq. destruct (on_group_leave s) as [s1 o1] eqn:E. pose proof (ogl_J r s H) as [J1 _]. rewrite E in J1. cbn [fst] in J1.
-    pose proof (resched_J r d s1 J1) as X. destruct (resched d s1). exact X. }
-  destruct k; cbn [rejoin_after_error].
-  - apply resched_J; auto.
-  - unfold seq, emit. pose proof (resched_J r DRetry s H) as X. destruct (resched DRetry s). exact X.
-  - unfold seq, emit. pose proof (resched_J r DRetry s H) as X. destruct (resched DRetry s). exact X.
-  - apply OG.
-  - unfold seq, upd. destruct (on_group_leave s) as [s1 o1] eqn:E. pose proof (ogl_J r s H) as [J1 C1]. rewrite E in J1, C1. cbn [fst] in J1, C1.
-    pose proof (resched_J r DRetry _ (set_member_J r s1 J1 C1)) as X. destruct (resched DRetry (set_member 0 s1)). exact X.
-  - unfold seq, upd. destruct (on_group_leave s) as [s1 o1] eqn:E. pose proof (ogl_J r s H) as [J1 C1]. rewrite E in J1, C1. cbn [fst] in J1, C1.
-    pose proof (resched_J r DRetry _ (set_member_J r s1 J1 C1)) as X. destruct (resched DRetry (set_member 0 s1)). exact X.
-  - apply resched_J; auto.
-  - unfold seq, emit. destruct (on_group_leave s) as [s1 o1] eqn:E. pose proof (ogl_J r s H) as [J1 _]. rewrite E in J1. cbn [fst] in J1.
-    pose proof (resched_J r DFatal s1 J1) as X. destruct (resched DFatal s1). exact X.
-  - apply resched_J; auto.
-  - destruct (stopping s) eqn:Hs; [cbn [fst]; auto|]. pose proof (fatal_J r KCancelled s H Hn) as [A B]. auto.
-  - pose proof (fatal_J r KNonKafka s H Hn) as [A B]. auto.
-Qed.
-
-(* ---------- generator bookkeeping at the level of Inv ---------- *)
-Lemma take_gen_J : forall (p : gen -> bool) s g rest, Jcore None s -> take_first p (gens s) = Some (g, rest) ->
-  Jcore (Some (g_id g, adv g)) (set_gens rest s) /\ (stopping s = false -> rejoin_needed s = true /\ rest = []) /\
-  (start_d s <> None \/ stopping s = true).
-Proof.
-  intros p s g rest H T.
-  pose proof (take_first_cnt _ p adv _ _ _ T) as (_ & Hc & _).
-  assert (NP : start_d s <> None \/ stopping s = true).
-  { destruct (start_d s) eqn:Sd; [left; discriminate|]. destruct (j5 _ _ H Sd) as [X|[X _]]; [auto|].
-    unfold pristine in X. destruct X as (X & _). rewrite X in T. discriminate. }
-  assert (SG : stopping s = false -> rejoin_needed s = true /\ rest = [] /\ rejoin_d s = Some (g_id g)).
-  { intros Hs. destruct (j8 _ _ H Hs) as [[X _]|(g0 & X & Y)]; [rewrite X in T; discriminate|].
-    rewrite X in T. apply take_first_single in T. destruct T; subst. repeat split; auto.
-    apply (j13 _ _ H Hs). rewrite X. discriminate. }
-  split; [|split; [intros Hs; destruct (SG Hs) as (A & B & _); auto|exact NP]].
-  ds s. prj. destruct (adv g) eqn:Ag; cbn [b2n] in Hc; jgo.
-  all: try (intros E; destruct (SG E) as (_ & ? & ?); auto).
-  all: try (intros E; right; exists g; intuition (subst; auto; congruence)).
-  all: try (intros E1 E2; destruct (SG E1) as (_ & ? & _); congruence).
-Qed.
-
-Lemma Stab_eq : forall s s', stab_eq s s' -> Stab s -> Stab s'.
-Proof. unfold stab_eq, Stab. intros s s' (A & B & C) H. rewrite A, B, C. exact H. Qed.
-
-Lemma gen_end_Inv : forall x s, Jcore (Some x) s -> Stab s ->
-  stopping s = true \/ stop_requested s = true \/ timers s <> [] \/ (rejoin_needed s = false /\ hb_running s = true) \/ escaped s = true ->
-  Inv (fst (gen_end s)).
-Proof.
-  intros x s H St P. constructor.
-  - apply (gen_end_J (Some x)); [discriminate|exact H].
-  - ds s. exact St.
-  - ds s. unfold Prog, progress; unf; prj. intuition congruence.
-Qed.
-
-Lemma add_gen_Inv : forall gid b g s, Jcore (Some (gid, b)) s -> Stab s -> g_id g = gid ->
-  (adv g = true -> consumers s = [] /\ (b = true \/ stopping s = false)) ->
-  (stopping s = false -> rejoin_needed s = true) -> Inv (add_gen g s).
-Proof.
-  intros gid b g s H St Hg Ha Hn. constructor.
-  - eapply add_gen_J; eauto.
-  - ds s. exact St.
-  - ds s. unfold Prog, progress; unf; prj. intros. left. discriminate.
-Qed.
-
-Lemma rae_Stab_Prog : forall s, stopping s = true \/ (rejoin_needed s = true /\ timers s <> [] /\ stopping s = false) -> Stab s /\ Prog s.
-Proof. intros s H. unfold Stab, Prog, progress. split; intros; intuition congruence. Qed.
-
-Lemma gen_fail_Inv : forall x k s, Jcore (Some x) s -> Stab s -> start_d s <> None \/ stopping s = true -> Inv (fst (gen_fail k s)).
-Proof.
-  intros x k s H St Hn. unfold gen_fail, seq.
-  pose proof (gen_end_J (Some x) s ltac:(discriminate) H) as J1.
-  destruct (gen_end s) as [s1 o1] eqn:E. cbn [fst] in J1.
-  assert (F : start_d s1 = start_d s /\ stopping s1 = stopping s /\ stab_eq s s1).
-  { unfold gen_end, upd in E. inversion E. ds s. cbn. unfold stab_eq; cbn. auto. }
-  destruct F as (F1 & F2 & F3).
-  destruct (is_kafka k).
-  - pose proof (rejoin_after_error_J None k s1 J1 ltac:(rewrite F1, F2; exact Hn)) as [A B].
-    destruct (rejoin_after_error k s1) as [s2 o2]. cbn [fst] in *. destruct (rae_Stab_Prog _ B). constructor; auto.
-  - unfold upd. cbn [fst]. constructor.
-    + ds s1. prj. destruct J1. constructor; prj; unfold pristine in *; prj; auto.
-      intros ->. rewrite F1, F2 in Hn. destruct Hn; [congruence|auto].
-    + apply (Stab_eq s1); [ds s1; unfold stab_eq; cbn; auto|]. apply (Stab_eq s); auto.
-    + ds s1. unfold Prog. prj. congruence.
-Qed.
-
-(* ---------- the event handlers ---------- *)
-Lemma with_gen_Inv : forall ph (k : gen -> act) s, Inv s ->
-  (forall g rest, take_first (awaits ph) (gens s) = Some (g, rest) -> Inv (fst (k g (set_gens rest s)))) ->
-  Inv (fst (with_gen ph k s)).
-Proof.
-  intros ph k s H K. unfold with_gen. destruct (take_first (awaits ph) (gens s)) as [[g rest]|] eqn:T; [apply K; auto|exact H].
-Qed.
-
-Lemma coord_retry_end_Inv : forall x d s, Jcore (Some x) s -> Stab s -> Inv (fst ((coord_retry d ;; gen_end) s)).
-Proof.
-  intros x d s H St. unfold seq, coord_retry, new_timer.
-  change (fst (let (s2, o2) := gen_end (set_timers ((next_timer s, TCoordRetry) :: timers s) (set_next_timer (next_timer s + 1) s)) in
-               (s2, [OSched TCoordRetry d (next_timer s)] ++ o2)))
-    with (fst (gen_end (set_timers ((next_timer s, TCoordRetry) :: timers s) (set_next_timer (next_timer s + 1) s)))).
-  apply (gen_end_Inv x).
-  - ds s. jgo.
-  - ds s. exact St.
-  - right. right. left. ds s. discriminate.
-Qed.
-
-Lemma set_gens_stab : forall l s, Stab s -> Stab (set_gens l s).
-Proof. intros l s H. ds s. exact H. Qed.
-
-Lemma on_lookup_Inv : forall rid r s, Inv s -> Inv (fst (on_lookup rid r s)).
-Proof.
-  intros rid r s H. unfold on_lookup. apply with_gen_Inv; auto. intros g rest T.
-  pose proof (take_gen_J _ _ _ _ (i_core _ H) T) as (J1 & N1 & NP).
-  assert (Ag : adv g = false).
-  { apply take_first_cnt with (p := adv) in T. destruct T as (T & _). unfold awaits in T. unfold adv. destruct (g_ph g); auto; discriminate. }
-  rewrite Ag in J1. pose proof (set_gens_stab rest s (i_stab _ H)) as St.
-  assert (NP' : start_d (set_gens rest s) <> None \/ stopping (set_gens rest s) = true) by (ds s; exact NP).
-  destruct r as [| |k].
-  - unfold fresh_rid. cbn [fst].
-    apply (add_gen_Inv (g_id g) false); auto.
-    + eapply Jcore_frame; [|exact J1]. ds s. frame.
-    + ds s. exact St.
-    + cbn. discriminate.
-    + intros E. apply N1. ds s. exact E.
-  - apply (coord_retry_end_Inv _ _ _ J1 St).
-  - destruct k; try apply (coord_retry_end_Inv _ _ _ J1 St); apply (gen_fail_Inv _ _ _ J1 St NP').
-Qed.
-
-Lemma send_join_Inv : forall gid b s, Jcore (Some (gid, b)) s -> Stab s -> consumers s = [] -> (b = true \/ stopping s = false) ->
-  (stopping s = false -> rejoin_needed s = true) -> Inv (fst (send_join gid s)).
-Proof.
-  intros gid b s H St Hc Hb Hn.
-  change (fst (send_join gid s)) with (add_gen (mkGen gid (GJoin (next_rid s))) (set_next_rid (next_rid s + 1) s)).
-  apply (add_gen_Inv gid b); auto.
-  - eapply Jcore_frame; [|exact H]. ds s. frame.
-  - ds s. exact St.
-  - intros _. ds s. auto.
-  - ds s. exact Hn.
-Qed.
-
-Lemma send_sync_Inv : forall gid ld s, Jcore (Some (gid, true)) s -> Stab s -> consumers s = [] ->
-  (stopping s = false -> rejoin_needed s = true) -> Inv (fst (send_sync gid ld s)).
-Proof.
-  intros gid ld s H St Hc Hn.
-  change (fst (send_sync gid ld s)) with (add_gen (mkGen gid (GSync (next_rid s))) (set_next_rid (next_rid s + 1) s)).
-  apply (add_gen_Inv gid true); auto.
-  - eapply Jcore_frame; [|exact H]. ds s. frame.
-  - ds s. exact St.
-  - intros _. ds s. auto.
-  - ds s. exact Hn.
-Qed.
-
-Lemma prepare_and_join_Inv : forall gid s, Jcore (Some (gid, false)) s -> Stab s -> stopping s = false -> rejoin_needed s = true ->
-  Inv (fst (prepare_and_join gid s)).
-Proof.
-  intros gid s H St Hs Hn. unfold prepare_and_join. destruct (is_group s) eqn:G.
-  - destruct (consumers s) as [|c cs'] eqn:C.
-    + apply (send_join_Inv gid false); auto.
-    + unfold begin_shutdown. cbn [fst].
-      apply (add_gen_Inv gid false).
-      * ds s. prj. subst. jgo.
-      * ds s. exact St.
-      * reflexivity.
-      * intros _. ds s. prj. auto.
-      * ds s. prj. auto.
-  - apply (send_join_Inv gid false); auto. apply (j1 _ _ H G).
-Qed.
-
-Lemma stop_pend_cases : forall s, stop_pend s = true -> stopping s = true \/ stop_requested s = true.
-Proof. intros s. unfold stop_pend. destruct (stopping s), (stop_requested s); auto. Qed.
-Lemma stop_pend_false : forall s, stop_pend s = false -> stopping s = false /\ stop_requested s = false.
-Proof. intros s. unfold stop_pend. destruct (stopping s), (stop_requested s); auto; discriminate. Qed.
-
-Lemma on_meta_Inv : forall rid r s, Inv s -> Inv (fst (on_meta rid r s)).
-Proof.
-  intros rid r s H. unfold on_meta. apply with_gen_Inv; auto. intros g rest T.
-  pose proof (take_gen_J _ _ _ _ (i_core _ H) T) as (J1 & N1 & NP).
-  assert (Ag : adv g = false).
-  { apply take_first_cnt with (p := adv) in T. destruct T as (T & _). unfold awaits in T. unfold adv. destruct (g_ph g); auto; discriminate. }
-  rewrite Ag in J1. pose proof (set_gens_stab rest s (i_stab _ H)) as St.
-  assert (NP' : start_d (set_gens rest s) <> None \/ stopping (set_gens rest s) = true) by (ds s; exact NP).
-  destruct r as [|k]; [|apply (gen_fail_Inv _ _ _ J1 St NP')].
-  destruct (stop_pend (set_gens rest s)) eqn:SP.
-  - apply (gen_end_Inv _ _ J1 St). apply stop_pend_cases in SP. intuition.
-  - apply stop_pend_false in SP. destruct SP as [SP1 SP2].
-    apply prepare_and_join_Inv.
-    + eapply Jcore_frame; [|exact J1]. ds s. frame.
-    + ds s. exact St.
-    + ds s. exact SP1.
-    + assert (X : stopping s = false) by (ds s; exact SP1). destruct (N1 X). ds s. auto.
-Qed.
-
-Lemma rae_end_Inv : forall x k s, Jcore (Some x) s -> start_d s <> None \/ stopping s = true ->
-  Inv (fst ((rejoin_after_error k ;; gen_end) s)).
-Proof.
-  intros x k s H Hn. unfold seq.
-  pose proof (rejoin_after_error_J (Some x) k s H Hn) as [A B].
-  destruct (rejoin_after_error k s) as [s1 o1]. cbn [fst] in *.
-  destruct (rae_Stab_Prog _ B) as [St _].
-  pose proof (gen_end_Inv x s1 A St ltac:(intuition)) as X. destruct (gen_end s1). exact X.
-Qed.
-
-Lemma adv_cons_nil : forall gid s, Jcore (Some (gid, true)) s -> consumers s = [].
-Proof. intros gid s H. destruct (j2 _ _ H) as [X|X]; auto. cbn in X. lia. Qed.
-
-Lemma awaits_adv : forall ph g, awaits ph g = true -> adv g = match ph with GLookup _ | GMeta _ => false | _ => true end.
-Proof. intros ph g. unfold awaits, adv. destruct ph, (g_ph g); auto; discriminate. Qed.
-
-Lemma on_join_Inv : forall rid r s, Inv s -> Inv (fst (on_join rid r s)).
-Proof.
-  intros rid r s H. unfold on_join. apply with_gen_Inv; auto. intros g rest T.
-  pose proof (take_gen_J _ _ _ _ (i_core _ H) T) as (J1 & N1 & NP).
-  assert (Ag : adv g = true).
-  { apply take_first_cnt with (p := adv) in T. destruct T as (T & _). apply awaits_adv in T. exact T. }
-  rewrite Ag in J1. pose proof (set_gens_stab rest s (i_stab _ H)) as St.
-  assert (NP' : start_d (set_gens rest s) <> None \/ stopping (set_gens rest s) = true) by (ds s; exact NP).
-  pose proof (adv_cons_nil _ _ J1) as C0.
-  destruct r as [gn mem role|k]; [|apply (rae_end_Inv _ _ _ J1 NP')].
-  unfold seq, upd.
-  set (s1 := set_cur_assign [] (set_generation gn (set_member mem (set_gens rest s)))).
-  assert (J2 : Jcore (Some (g_id g, true)) s1). { subst s1. ds s. prj. subst. jgo. }
-  assert (St2 : Stab s1). { subst s1. ds s. exact St. }
-  assert (C2 : consumers s1 = []). { subst s1. ds s. exact C0. }
-  assert (N2 : stopping s1 = false -> rejoin_needed s1 = true). { subst s1. intros E. assert (X : stopping s = false) by (ds s; exact E). destruct (N1 X). ds s. auto. }
-  assert (NP2 : start_d s1 <> None \/ stopping s1 = true). { subst s1. ds s. exact NP. }
-  clearbody s1.
-  assert (G : forall (a : act), Inv (fst (a s1)) -> Inv (fst (let (s2, o2) := a s1 in (s2, [] ++ o2)))).
-  { intros a X. destruct (a s1). exact X. }
-  apply G.
-  destruct (stop_pend s1) eqn:SP.
-  - apply (gen_end_Inv _ _ J2 St2). apply stop_pend_cases in SP. intuition.
-  - destruct (role =? 0).
-    + apply (send_sync_Inv _ _ _ J2 St2 C2 N2).
-    + destruct (role =? 1).
-      * unfold fresh_rid. cbn [fst]. apply (add_gen_Inv (g_id g) true); auto.
-        -- eapply Jcore_frame; [|exact J2]. ds s1. frame.
-        -- ds s1. exact St2.
-        -- intros _. ds s1. auto.
-        -- ds s1. exact N2.
-      * apply (gen_fail_Inv _ _ _ J2 St2 NP2).
-Qed.
-
-Lemma on_parts_Inv : forall rid r s, Inv s -> Inv (fst (on_parts rid r s)).
-Proof.
-  intros rid r s H. unfold on_parts. apply with_gen_Inv; auto. intros g rest T.
-  pose proof (take_gen_J _ _ _ _ (i_core _ H) T) as (J1 & N1 & NP).
-  assert (Ag : adv g = true).
-  { apply take_first_cnt with (p := adv) in T. destruct T as (T & _). apply awaits_adv in T. exact T. }
-  rewrite Ag in J1. pose proof (set_gens_stab rest s (i_stab _ H)) as St.
-  assert (NP' : start_d (set_gens rest s) <> None \/ stopping (set_gens rest s) = true) by (ds s; exact NP).
-  pose proof (adv_cons_nil _ _ J1) as C0.
-  destruct r as [| |k]; try apply (gen_fail_Inv _ _ _ J1 St NP').
-  destruct (stop_pend (set_gens rest s)) eqn:SP.
-  - apply (gen_end_Inv _ _ J1 St). apply stop_pend_cases in SP. intuition.
-  - apply (send_sync_Inv _ _ _ J1 St C0). intros E. assert (X : stopping s = false) by (ds s; exact E). destruct (N1 X). ds s. auto.
-Qed.
-
-(* consumers started by on_join_complete *)
-Lemma insert_by_Forall : forall A (key : A -> Z) (P : A -> Prop) x l, P x -> Forall P l -> Forall P (insert_by key x l).
-Proof.
-  intros A key P x l Hx Hl. induction Hl as [|y l Hy Hl IH]; cbn [insert_by]; [constructor; auto|].
-  destruct ((key y =? key x) && negb (existsb (fun z => key z =? key x) l)); repeat constructor; auto.
-Qed.
-Lemma insert_by_In : forall A (key : A -> Z) x y l, In y (insert_by key x l) -> y = x \/ In y l.
-Proof.
-  intros A key x y l. induction l as [|z l IH]; cbn [insert_by]; [intros [->|[]]; auto|].
-  destruct ((key z =? key x) && negb (existsb (fun w => key w =? key x) l)).
-  - intros [->|[->|H]]; auto; right; [left|right]; auto.
-  - intros [->|H]; [right; left; auto|]. destruct (IH H); auto. right; right; auto.
-Qed.
-Lemma group_by_topic_In : forall asg x, In x (group_by_topic asg) -> In x asg.
-Proof.
-  intros asg x. unfold group_by_topic.
-  assert (G : forall l acc, In x (fold_left (fun acc tp => insert_by fst tp acc) l acc) -> In x l \/ In x acc).
-  { induction l as [|y l IH]; cbn [fold_left]; intros acc H; [auto|].
-    destruct (IH _ H) as [X|X]; [left; right; auto|]. apply insert_by_In in X. destruct X as [->|X]; [left; left; auto|auto]. }
-  intros H. destruct (G _ _ H) as [X|[]]; auto.
-Qed.
-
-Lemma start_consumers_spec : forall tps s, let s' := fst (start_consumers tps s) in
-  same_core (set_consumers (consumers s') s) s' /\
-  (forall P : consumer -> Prop, Forall P (consumers s) ->
-     (forall t p cid, In (t, p) tps -> P (mkC cid t p (generation s) (member s) false)) -> Forall P (consumers s')).
-Proof.
-  induction tps as [|[t p] tps IH]; intros s; cbn [start_consumers].
-  - unfold skip. cbn [fst]. split; [ds s; frame|auto].
-  - unfold seq.
-    set (s1 := set_consumers (insert_by c_topic (mkC (next_cid s) t p (generation s) (member s) false) (consumers s)) (set_next_cid (next_cid s + 1) s)).
-    change (fst (let (s2, o2) := start_consumers tps s1 in (s2, [OStartC (c_id (mkC (next_cid s) t p (generation s) (member s) false)) t p
-               (c_gen (mkC (next_cid s) t p (generation s) (member s) false)) (c_mem (mkC (next_cid s) t p (generation s) (member s) false))] ++ o2)))
-      with (fst (start_consumers tps s1)).
-    destruct (IH s1) as [A B]. split.
-    + subst s1. ds s. unfold same_core in *. prj. exact A.
-    + intros P HP HA. apply B.
-      * subst s1. ds s. prj. apply insert_by_Forall; auto. apply HA. left; auto.
-      * intros t' p' cid Hin. subst s1. ds s. prj. apply HA. right; auto.
-Qed.
-
-Lemma seq_fst : forall (a b : act) s, fst ((a ;; b) s) = fst (b (fst (a s))).
-Proof. intros. unfold seq. destruct (a s) as [s1 o1]. destruct (b s1). reflexivity. Qed.
-
-Lemma reset_hb_fst : forall s, fst (reset_heartbeat_timer s) = set_hb_running true s.
-Proof. intros s. unfold reset_heartbeat_timer. destruct (hb_running s) eqn:E; cbn [fst]; [|reflexivity]. ds s. cbn in E. subst. reflexivity. Qed.
-
-Lemma on_sync_ok_Inv : forall gid asg s, Jcore (Some (gid, true)) s -> stop_pend s = false ->
-  Inv (fst ((upd (set_cur_assign asg) ;; reset_heartbeat_timer ;; upd (set_rejoin_needed false) ;; on_join_complete asg ;; gen_end) s)).
-Proof.
-  intros gid asg s H SP. apply stop_pend_false in SP. destruct SP as [Hs Hr].
-  rewrite !seq_fst. unfold upd at 1 2. cbn [fst]. rewrite reset_hb_fst.
-  set (sA := set_rejoin_needed false (set_hb_running true (set_cur_assign asg s))).
-  assert (C0 : consumers s = []) by apply (adv_cons_nil _ _ H).
-  assert (G0 : gens s = [] /\ rejoin_d s = Some gid) by apply (j8 _ _ H Hs).
-  assert (X : exists cs', same_core (set_consumers cs' sA) (fst (on_join_complete asg sA)) /\
-                          Forall (cons_ok (generation s) (member s) asg) cs' /\ (is_group s = false -> cs' = [])).
-  { unfold on_join_complete. destruct (is_group sA) eqn:G.
-    - replace (stop_requested sA) with false by (subst sA; ds s; auto).
-      destruct (start_consumers_spec (group_by_topic asg) sA) as [A B].
-      exists (consumers (fst (start_consumers (group_by_topic asg) sA))). split; [exact A|]. split.
-      + apply B; [subst sA; ds s; prj; subst; constructor|].
-        intros t p cid Hin. subst sA. ds s. prj. unfold cons_ok. cbn. repeat split; auto. apply group_by_topic_In; auto.
-      + intros E. subst sA. ds s. cbn in G, E. congruence.
-    - exists []. cbn [fst]. split; [subst sA; ds s; prj; subst; frame|]. split; [constructor|auto]. }
-  destruct X as (cs' & SC & FA & NG).
-  set (sB := fst (on_join_complete asg sA)) in *. clearbody sB.
-  assert (JB : Jcore None (set_rejoin_d None (set_consumers cs' sA))).
-  { subst sA. destruct G0 as [G1 G2]. ds s. prj. subst. jgo. intros; discriminate. }
-  assert (SC' : same_core (set_rejoin_d None (set_consumers cs' sA)) (fst (gen_end sB))).
-  { unfold gen_end, upd. cbn [fst]. subst sA. ds s. destruct sB. unfold same_core in *. prj. intuition. }
-  constructor.
-  - eapply Jcore_frame; [exact SC'|exact JB].
-  - unfold same_core in SC'. destruct SC' as (_&_&_&_&E1&E2&_&_&_&E3&_). unfold Stab. rewrite E1, E2, E3. subst sA. ds s. prj. auto.
-  - unfold same_core in SC'. destruct SC' as (_&_&_&_&E1&E2&_&_&_&E3&_). unfold Prog, progress. rewrite E1, E3. intros. right. left. subst sA. ds s. prj. auto.
-Qed.
-
-Lemma on_sync_Inv : forall rid r s, Inv s -> Inv (fst (on_sync rid r s)).
-Proof.
-  intros rid r s H. unfold on_sync. apply with_gen_Inv; auto. intros g rest T.
-  pose proof (take_gen_J _ _ _ _ (i_core _ H) T) as (J1 & N1 & NP).
-  assert (Ag : adv g = true).
-  { apply take_first_cnt with (p := adv) in T. destruct T as (T & _). apply awaits_adv in T. exact T. }
-  rewrite Ag in J1. pose proof (set_gens_stab rest s (i_stab _ H)) as St.
-  assert (NP' : start_d (set_gens rest s) <> None \/ stopping (set_gens rest s) = true) by (ds s; exact NP).
-  destruct r as [asg| | |k]; try apply (rae_end_Inv _ _ _ J1 NP').
-  all: destruct (stop_pend (set_gens rest s)) eqn:SP;
-    [apply (gen_end_Inv _ _ J1 St); apply stop_pend_cases in SP; intuition|].
-  - apply (on_sync_ok_Inv _ _ _ J1 SP).
-  - apply (gen_fail_Inv _ _ _ J1 St NP').
-  - apply (gen_fail_Inv _ _ _ J1 St NP').
 Qed.
